@@ -144,6 +144,9 @@ theorem frozen_assign (v : Value) (l : Option Nat) : Frozen (·.assign v l) := b
 theorem frozen_export (b : Bool) : Frozen (·.setExport b) := by
   intro u _; simp [Variable.setExport, SameRO]
 
+theorem frozen_setQuirk (q : Option Quirk) : Frozen (·.setQuirk q) := by
+  intro u _; simp [Variable.setQuirk, SameRO]
+
 theorem frozen_makeReadOnly (l : Nat) : Frozen (·.makeReadOnly l) := by
   intro u hu
   unfold Variable.isReadOnly at hu
